@@ -880,6 +880,14 @@ pub(crate) fn solve_expression(
                     let x = x.to_string();
                     search(s, x.as_str())
                 }
+                (_, true) => {
+                    // NOTE: A value that cannot be cast to a string is false, as for int & flt
+                    debug!(
+                        "evaluating false, field cannot be cast to a string for {}",
+                        expression
+                    );
+                    return SolverResult::False;
+                }
                 _ => {
                     debug!(
                         "evaluating false, field is not an array of strings, or a string for {}",
@@ -970,6 +978,13 @@ fn match_all(
                 if slow_aho(a, m, x.as_str()) != m.len() as u64 {
                     return SolverResult::False;
                 }
+            }
+            (_, true) => {
+                debug!(
+                    "evaluating false, field cannot be cast to a string for {}",
+                    expression
+                );
+                return SolverResult::False;
             }
             (_, _) => {
                 debug!(
@@ -1070,6 +1085,13 @@ fn match_all(
                 if hits != s.patterns().len() {
                     return SolverResult::False;
                 }
+            }
+            (_, true) => {
+                debug!(
+                    "evaluating false, field cannot be cast to a string for {}",
+                    expression
+                );
+                return SolverResult::False;
             }
             _ => {
                 debug!(
@@ -1207,6 +1229,13 @@ fn match_of(
                     return SolverResult::True;
                 }
             }
+            (_, true) => {
+                debug!(
+                    "evaluating false, field cannot be cast to a string for {}",
+                    expression
+                );
+                return SolverResult::False;
+            }
             _ => {
                 debug!(
                     "evaluating false, field is not an array of strings, or a string for {}",
@@ -1300,6 +1329,13 @@ fn match_of(
                 if c >= count {
                     return SolverResult::True;
                 }
+            }
+            (_, true) => {
+                debug!(
+                    "evaluating false, field cannot be cast to a string for {}",
+                    expression
+                );
+                return SolverResult::False;
             }
             _ => {
                 debug!(
